@@ -262,11 +262,14 @@ func (r *runner) shard(shard int) error {
 			default:
 				res.Outcome = "crash"
 				res.Detail = firstLine(st, "panic:", "fatal error:", "runtime:")
-				if res.Detail == "" {
-					res.Detail = fmt.Sprintf("child died: %v", werr)
-				}
 				res.Stack = truncate(st, 6000)
 				res.Site = siteOf(st)
+				if res.Detail == "" || res.Site == "?" {
+					// no Go traceback through repository code: the child was killed from outside (or died for
+					// a reason that cannot be attributed to the case); never a verdict by itself
+					res.Outcome = "died"
+					res.Detail = fmt.Sprintf("child died without a repository traceback: %v: %s", werr, truncate(firstLine(st, "panic:", "fatal error:", "runtime:", "signal"), 200))
+				}
 			}
 			r.mu.Lock()
 			r.results[cur] = res
@@ -872,6 +875,17 @@ func run(c *core.Ctx) error {
 		}
 	}
 	nProto := len(cases) - nProtoStart
+	if only := os.Getenv("C11_ONLY"); only != "" {
+		// development self-tests (trace / prediction corruption): run one kind of case only
+		var sub []Case
+		for _, cs := range cases {
+			if cs.Kind == only {
+				sub = append(sub, cs)
+			}
+		}
+		cases = sub
+		c.Note("C11_ONLY=" + only + ": partial run (self-test)")
+	}
 	c.Logf("cases: %d reader faults, %d detection, %d query texts, %d protocol runs", nRead, nDetect, nQuery, nProto)
 	c.Set("cases_reader_faults", nRead)
 	c.Set("cases_detection", nDetect)
@@ -919,6 +933,15 @@ func run(c *core.Ctx) error {
 		outcomes[cs.Kind+":"+res.Outcome]++
 		timeBy[cs.Kind+":"+formatOf(cs)] += res.Nanos
 		key := fmt.Sprintf("%s|%s|%v|%s|%x", cs.Kind, cs.Reader, cs.Opts, cs.Consumer, cs.Data)
+		if res.Outcome == "died" {
+			again, err := runOne(c, *cs)
+			if err != nil || again.Outcome == "died" {
+				c.Inconclusive("case %d (%s %s %s@%s): the child process died without a traceback, twice (%v)", i, cs.Kind, cs.Reader, cs.Class, cs.Where, err)
+				continue
+			}
+			res = again
+			r.results[i] = again
+		}
 		switch res.Outcome {
 		case "ok":
 		case "harness":
@@ -945,6 +968,7 @@ func run(c *core.Ctx) error {
 			}
 			confirmed[sig] = true
 			w := *cs
+			saveKnownWitness(c, sig, whatOf(cs, res), map[string]any{"case": w, "observed": res})
 			c.Violate(sig, whatOf(cs, res), map[string]any{"case": w, "observed": res})
 			c.Eval(key, true)
 			continue
@@ -1024,6 +1048,27 @@ func finalZeroCoverage(out string) []string {
 }
 
 var sampled = map[string]int{}
+
+var savedWitness = map[string]bool{}
+
+// saveKnownWitness (only with C11_SAVE_WITNESS=<dir>): keeps one re-runnable witness per known-finding
+// signature, in the format `./check C11 --replay <file>` understands.
+func saveKnownWitness(c *core.Ctx, sig, what string, witness any) {
+	dir := os.Getenv("C11_SAVE_WITNESS")
+	if dir == "" || savedWitness[sig] || !c.IsKnown(sig) {
+		return
+	}
+	savedWitness[sig] = true
+	id := ""
+	for _, f := range c.KnownFindings() {
+		if f.Signature == sig {
+			id = f.ID
+		}
+	}
+	b, _ := json.MarshalIndent(map[string]any{"property": "C11", "signature": sig, "what": what, "witness": witness, "seed": c.Seed, "tier": c.Tier}, "", " ")
+	os.MkdirAll(dir, 0o755)
+	os.WriteFile(filepath.Join(dir, "C11-"+id+".json"), b, 0o644)
+}
 
 // hookFrames counts the leading items of a stream that are dispatched to a worker and reach the
 // worker.done hook (V, E, B); the gate needs that many completions to be certain.
